@@ -6,6 +6,7 @@
 package c02
 
 import (
+	"runtime"
 	"encoding/hex"
 	"fmt"
 	"sort"
@@ -23,8 +24,8 @@ import (
 
 // Op is one step of the node's life.
 type Op struct {
-	Kind  string         `json:"kind"`            // block | flush | gc | headers | reset | restart
-	N     int            `json:"n,omitempty"`     // headers: how many ahead (1-3); reset: how many blocks back (1-4)
+	Kind  string         `json:"kind"`            // block | flush | gc | headers | reset | restart | race
+	N     int            `json:"n,omitempty"`     // headers: how many ahead (1-3); reset: how many blocks back (1-4); race: blocks fed while a flusher spins (1-6)
 	Specs []ck.BlockSpec `json:"specs,omitempty"` // reset: the different continuation built on the reset height
 }
 
@@ -59,7 +60,7 @@ func genCase(t *rapid.T) Case {
 	nops := rapid.IntRange(nb, nb+14).Draw(t, "nops")
 	resets := 0
 	for i := 0; i < nops; i++ {
-		kinds := []string{"block", "block", "block", "block", "flush", "flush", "headers", "restart"}
+		kinds := []string{"block", "block", "block", "block", "flush", "flush", "headers", "restart", "race"}
 		if gcMode {
 			kinds = append(kinds, "gc", "gc", "gc")
 		} else if !c.Node.KeepOnlyLatest && resets < 2 {
@@ -69,6 +70,8 @@ func genCase(t *rapid.T) Case {
 		switch op.Kind {
 		case "headers":
 			op.N = rapid.IntRange(1, 3).Draw(t, "ahead")
+		case "race":
+			op.N = rapid.IntRange(1, 6).Draw(t, "raced")
 		case "reset":
 			resets++
 			op.N = rapid.IntRange(1, 4).Draw(t, "back")
@@ -189,7 +192,7 @@ func checkCase(c Case, o *vt.Obs) error {
 		return err
 	}
 	mark("boot", start, nil, 0)
-	sawGC, sawReset, sawHeaders := false, false, false
+	sawGC, sawReset, sawHeaders, sawRace := false, false, false, false
 	for i, op := range c.Ops {
 		from := rec.Count()
 		switch op.Kind {
@@ -210,6 +213,44 @@ func checkCase(c Case, o *vt.Obs) error {
 			if err := n.BC.VerifPersist(); err != nil {
 				return fmt.Errorf("op %d: persist: %v", i, err)
 			}
+		case "race":
+			// The production flusher is a timer goroutine that runs while blocks are being processed: here it spins.
+			// The interleaving is the scheduler's (not replayable); every commit it issues is a crash point as usual.
+			stop, done := make(chan struct{}), make(chan error, 1)
+			go func() {
+				var first error
+				for {
+					select {
+					case <-stop:
+						done <- first
+						return
+					default:
+					}
+					if err := n.BC.VerifPersist(); err != nil && first == nil {
+						first = err
+					}
+					runtime.Gosched()
+				}
+			}()
+			var ferr error
+			for j := 0; j < op.N && ferr == nil; j++ {
+				if delivered == cur.height() {
+					ok, err := buildNext()
+					if err != nil || !ok {
+						ferr = err
+						break
+					}
+				}
+				ferr = feed(delivered + 1)
+			}
+			close(stop)
+			if err := <-done; err != nil {
+				return fmt.Errorf("op %d: persist racing with blocks: %v", i, err)
+			}
+			if ferr != nil {
+				return fmt.Errorf("op %d: %v", i, ferr)
+			}
+			sawRace = true
 		case "gc":
 			if err := n.BC.VerifPersistAndGC(); err != nil {
 				return fmt.Errorf("op %d: persist+gc: %v", i, err)
@@ -318,7 +359,7 @@ func checkCase(c Case, o *vt.Obs) error {
 			points = append(points, k)
 		}
 		for _, s := range segs { // always include everything around GC / reset / header commits
-			if s.kind == "gc" || s.kind == "reset" || s.kind == "headers" {
+			if s.kind == "gc" || s.kind == "reset" || s.kind == "headers" || s.kind == "race" {
 				for k := s.from; k <= s.to && k <= total; k++ {
 					points = append(points, k)
 				}
@@ -355,7 +396,7 @@ func checkCase(c Case, o *vt.Obs) error {
 		if ci >= 0 && k < segs[ci].to {
 			si = ci // strictly inside an op: that op is still in progress
 		}
-		if ci >= 0 && (k < segs[ci].to || segs[ci].kind == "gc" || segs[ci].kind == "reset" || segs[ci].kind == "headers") {
+		if ci >= 0 && (k < segs[ci].to || segs[ci].kind == "gc" || segs[ci].kind == "reset" || segs[ci].kind == "headers" || segs[ci].kind == "race") {
 			nonBoundary++
 		}
 		if err := checkCrashPoint(c, rec, k, segs, ci, si, resetFinal); err != nil {
@@ -375,6 +416,9 @@ func checkCase(c Case, o *vt.Obs) error {
 	}
 	if sawHeaders {
 		o.Label("headers-ahead")
+	}
+	if sawRace {
+		o.Label("flusher-racing-with-blocks")
 	}
 	if nonBoundary > 0 {
 		o.NonTrivial()
